@@ -30,6 +30,9 @@
 //!    `Down` with the reason recorded, and the local node keeps serving. This
 //!    is the difference between a cluster and a suicide pact.
 
+#[cfg(qe_verif_shuttle)]
+use crate::shuttle_shim::Mutex;
+#[cfg(not(qe_verif_shuttle))]
 use parking_lot::Mutex;
 use std::collections::{BTreeMap, HashSet};
 use std::net::{IpAddr, SocketAddr, ToSocketAddrs};
